@@ -153,6 +153,9 @@ func Do(c *sim.Cluster, a Action) error {
 				if n == nil || n.Down || n.Silent || n.Idx == a.A {
 					continue
 				}
+				if a.B > 0 && n.Idx != a.B-1 {
+					continue // a named server: its own anchor is what counts
+				}
 				if ab := n.Node.VHashgraph().AnchorBlock; ab != nil && *ab > best {
 					best = *ab
 				}
